@@ -1376,9 +1376,10 @@ def partial_reduce(
     # Since back_key_function returns an iterator of input keys, the the array chunks passed to
     # _partial_reduce are retrieved one at a time. However, we need an extra chunk of memory
     # to stay within limits (maybe because the iterator doesn't free the previous object
-    # before getting the next). We also need extra memory to hold two reduced chunks, since
-    # they are concatenated two at a time.
-    extra_projected_mem = x.chunkmem + 2 * array_memory(dtype, to_chunksize(chunks))
+    # before getting the next). We also need extra memory to hold three reduced chunks: the
+    # result of applying the initial function to a block (kept alive while the block is
+    # combined), and two reduced chunks, since they are concatenated two at a time.
+    extra_projected_mem = x.chunkmem + 3 * array_memory(dtype, to_chunksize(chunks))
 
     return general_blockwise(
         _partial_reduce,
